@@ -41,11 +41,11 @@ func (o *outcome) findings() []finding {
 	if o.Crash != nil {
 		switch {
 		case o.Crash.Kind == "hang":
-			return []finding{{"hang", "", ""}}
+			return []finding{{Kind: "hang"}}
 		case o.Crash.Kind == "":
-			return []finding{{"process-died", "", o.Crash.Exit}}
+			return []finding{{Kind: "process-died", Detail: o.Crash.Exit}}
 		}
-		return []finding{{"process-crash", "", o.Crash.Kind + "|" + o.Crash.Site}}
+		return []finding{{Kind: "process-crash", Detail: o.Crash.Kind + "|" + o.Crash.Site}}
 	}
 	return o.Res.Findings
 }
@@ -107,8 +107,10 @@ func runChunk(jobs []job) []outcome {
 			if werr == nil || j.ID != begun {
 				if strings.Contains(tr, "HARNESS-UNBOUND") {
 					fmt.Print(tr)
+					os.RemoveAll(scratch)
 					os.Exit(2)
 				}
+				os.RemoveAll(scratch)
 				ev.Unbound(fmt.Sprintf("worker protocol error (exit=%v begun=%d job=%d): %s", werr, begun, j.ID, tailStr(tr, 600)))
 			}
 			ci := &crashInfo{Exit: werr.Error()}
@@ -157,6 +159,12 @@ func lastFatal(tr string) int {
 	return -1
 }
 
+// die removes the scratch directory before a fatal harness exit (os.Exit skips defers).
+func die(f func()) {
+	os.RemoveAll(scratch)
+	f()
+}
+
 func tailStr(s string, n int) string {
 	if len(s) > n {
 		return s[len(s)-n:]
@@ -170,6 +178,18 @@ func headStr(s string, n int) string {
 	return s
 }
 
+// rootOf names the panic behind a finding: a process death and "rows of an earlier request lost after a
+// panic that the HTTP middleware recovered" are the same defect when kind and site of the panic agree.
+func rootOf(f finding) string {
+	switch {
+	case f.Kind == "process-crash":
+		return f.Detail
+	case strings.HasPrefix(f.Detail, "after-recovered-panic:"):
+		return strings.TrimPrefix(f.Detail, "after-recovered-panic:")
+	}
+	return ""
+}
+
 func seqKey(mode string, seq []int) string { return fmt.Sprintf("%s%v", mode, seq) }
 
 func seqNames(A []atom, seq []int) string {
@@ -180,51 +200,112 @@ func seqNames(A []atom, seq []int) string {
 	return strings.Join(n, " ; ")
 }
 
-func enumerate(A []atom, thorough bool) []job {
+// sequences returns every sequence of length 1..max over alpha, shortest first.
+func sequences(alpha []int, max int) [][]int {
+	var out [][]int
+	level := [][]int{{}}
+	for l := 1; l <= max; l++ {
+		var next [][]int
+		for _, pre := range level {
+			for _, a := range alpha {
+				next = append(next, append(append([]int{}, pre...), a))
+			}
+		}
+		out = append(out, next...)
+		level = next
+	}
+	return out
+}
+
+type explorer struct {
+	A      []atom
+	run    *ev.Run
+	mu     sync.Mutex
+	byKey  map[string]*outcome
+	order  []*outcome
+	nextID int
+	cut    bool // deadline hit: not exhaustive
+	nw     int
+	total  int
+}
+
+// execute runs (mode, seq) for every seq not yet evaluated in that mode.
+func (x *explorer) execute(mode string, seqs [][]int) {
 	var jobs []job
-	seen := map[string]bool{}
-	add := func(mode string, seq []int) {
-		k := seqKey(mode, seq)
-		if seen[k] {
-			return
+	for _, q := range seqs {
+		k := seqKey(mode, q)
+		if _, ok := x.byKey[k]; ok {
+			continue
 		}
-		seen[k] = true
-		jobs = append(jobs, job{ID: len(jobs), Mode: mode, Seq: append([]int{}, seq...)})
+		x.byKey[k] = nil
+		jobs = append(jobs, job{ID: x.nextID, Mode: mode, Seq: q})
+		x.nextID++
 	}
-	var all, merge []int
-	for i := range A {
-		if thorough || A[i].Quick {
-			all = append(all, i)
-		}
-		if A[i].Merge {
-			merge = append(merge, i)
+	x.total += len(jobs)
+	const chunk = 64
+	var chunks [][]job
+	for i := 0; i < len(jobs); i += chunk {
+		chunks = append(chunks, jobs[i:min(i+chunk, len(jobs))])
+	}
+	if x.run.Seed != 0 && len(chunks) > 1 { // the seed only permutes the order of exploration
+		r := ((x.run.Seed % len(chunks)) + len(chunks)) % len(chunks)
+		chunks = append(chunks[r:], chunks[:r]...)
+	}
+	var next atomic.Int64
+	var wg sync.WaitGroup
+	for w := 0; w < x.nw; w++ {
+		wg.Add(1)
+		go func() {
+			defer wg.Done()
+			for {
+				i := int(next.Add(1)) - 1
+				if i >= len(chunks) {
+					return
+				}
+				if x.run.TimeUp() {
+					x.mu.Lock()
+					x.cut = true
+					x.mu.Unlock()
+					return
+				}
+				outs := runChunk(chunks[i])
+				x.mu.Lock()
+				for k := range outs {
+					o := &outs[k]
+					x.byKey[seqKey(o.Job.Mode, o.Job.Seq)] = o
+					x.order = append(x.order, o)
+				}
+				x.mu.Unlock()
+			}
+		}()
+	}
+	wg.Wait()
+	for k, o := range x.byKey { // cut off: forget the placeholders
+		if o == nil {
+			delete(x.byKey, k)
 		}
 	}
-	var rec func(mode string, alpha []int, pre []int, max int)
-	rec = func(mode string, alpha []int, pre []int, max int) {
-		if len(pre) > 0 {
-			add(mode, pre)
-		}
-		if len(pre) == max {
-			return
-		}
-		for _, a := range alpha {
-			rec(mode, alpha, append(pre, a), max)
-		}
+}
+
+// sizeReachable: can the size trigger of `mode` fire for this sequence? Decided from the final-mode
+// run of the same sequence: the rows of the requests that were accepted there must reach the
+// threshold (atoms whose row count is not declared count as enough; a sequence whose final-mode run
+// died is always kept).
+func (x *explorer) sizeReachable(mode string, seq []int) bool {
+	o := x.byKey[seqKey("final", seq)]
+	if o == nil || o.Crash != nil {
+		return true
 	}
-	maxLen := 2
-	if os.Getenv("VERIF_C04_MAXLEN") == "1" { // debugging aid
-		maxLen = 1
-	}
-	for _, mode := range []string{"size3", "final"} {
-		rec(mode, all, nil, maxLen)
-	}
-	if thorough {
-		for _, mode := range []string{"size5", "final", "size3"} {
-			rec(mode, merge, nil, 3)
+	rows := 0
+	for p, ai := range seq {
+		if st := o.Res.Status[p]; st >= 200 && st < 300 {
+			if x.A[ai].NRows < 0 {
+				return true
+			}
+			rows += x.A[ai].NRows
 		}
 	}
-	return jobs
+	return rows >= bufSize(mode)
 }
 
 type replayAtom struct {
@@ -276,27 +357,29 @@ func main() {
 		return
 	}
 
-	jobs := enumerate(A, !run.Quick())
-	if s := os.Getenv("VERIF_C04_SEQ"); s != "" { // debugging aid: run one sequence ("name ; name" or "#<job id>")
-		var jb job
-		if strings.HasPrefix(s, "#") {
-			var id int
-			fmt.Sscanf(s, "#%d", &id)
-			jb = jobs[id]
-		} else {
-			jb.Mode = os.Getenv("VERIF_C04_MODE")
-			if jb.Mode == "" {
-				jb.Mode = "final"
-			}
-			for _, n := range strings.Split(s, " ; ") {
-				i, ok := byName[n]
-				if !ok {
-					ev.Unbound("unknown atom " + n)
-				}
-				jb.Seq = append(jb.Seq, i)
-			}
+	var all, merge []int
+	for i := range A {
+		if !run.Quick() || A[i].Quick {
+			all = append(all, i)
 		}
-		jb.ID = 0
+		if A[i].Merge {
+			merge = append(merge, i)
+		}
+	}
+	nw := min(runtime.NumCPU(), 16)
+	x := &explorer{A: A, run: run, byKey: map[string]*outcome{}, nw: nw}
+	if s := os.Getenv("VERIF_C04_SEQ"); s != "" { // debugging aid: run one sequence ("name ; name")
+		jb := job{Mode: os.Getenv("VERIF_C04_MODE")}
+		if jb.Mode == "" {
+			jb.Mode = "final"
+		}
+		for _, n := range strings.Split(s, " ; ") {
+			i, ok := byName[n]
+			if !ok {
+				die(func() { ev.Unbound("unknown atom " + n) })
+			}
+			jb.Seq = append(jb.Seq, i)
+		}
 		o := runChunk([]job{jb})[0]
 		fmt.Printf("[%s] mode=%s\n", seqNames(A, jb.Seq), jb.Mode)
 		if o.Crash != nil {
@@ -307,71 +390,50 @@ func main() {
 		os.RemoveAll(scratch)
 		return
 	}
-	if s := os.Getenv("VERIF_C04_LIMIT"); s != "" { // debugging aid
-		var n int
-		fmt.Sscanf(s, "%d", &n)
-		if n < len(jobs) {
-			jobs = jobs[:n]
-		}
+	maxLen := 2
+	if os.Getenv("VERIF_C04_MAXLEN") == "1" { // debugging aid
+		maxLen = 1
 	}
-	const chunk = 96
-	var chunks [][]job
-	for i := 0; i < len(jobs); i += chunk {
-		e := i + chunk
-		if e > len(jobs) {
-			e = len(jobs)
-		}
-		chunks = append(chunks, jobs[i:e])
-	}
-	if run.Seed != 0 && len(chunks) > 1 { // the seed only permutes the order of exploration
-		r := run.Seed % len(chunks)
-		if r < 0 {
-			r += len(chunks)
-		}
-		chunks = append(chunks[r:], chunks[:r]...)
-	}
-	nw := runtime.NumCPU()
-	if nw > 16 {
-		nw = 16
-	}
-	results := make([]*outcome, len(jobs))
-	var next atomic.Int64
-	var wg sync.WaitGroup
-	exhaustive := true
-	var exMu sync.Mutex
-	for w := 0; w < nw; w++ {
-		wg.Add(1)
-		go func() {
-			defer wg.Done()
-			for {
-				i := int(next.Add(1)) - 1
-				if i >= len(chunks) {
-					return
-				}
-				if run.TimeUp() {
-					exMu.Lock()
-					exhaustive = false
-					exMu.Unlock()
-					return
-				}
-				for _, o := range runChunk(chunks[i]) {
-					o := o
-					results[o.Job.ID] = &o
-				}
+	// phase 1: every sequence, only the explicit flush at the end ("final")
+	seqs := sequences(all, maxLen)
+	x.execute("final", seqs)
+	// phase 2: the same sequences with max_buffer_size=3 wherever that size trigger is reachable
+	skipped := 0
+	filter := func(mode string, in [][]int) [][]int {
+		var out [][]int
+		for _, q := range in {
+			if _, done := x.byKey[seqKey("final", q)]; !done && x.cut {
+				continue
 			}
-		}()
+			if x.sizeReachable(mode, q) {
+				out = append(out, q)
+			} else {
+				skipped++
+			}
+		}
+		return out
 	}
-	wg.Wait()
+	x.execute("size3", filter("size3", seqs))
+	if !run.Quick() {
+		// phase 3 (thorough): length <= 3 over the merge alphabet, triggers at 3 and at 5 rows
+		m3 := sequences(merge, 3)
+		x.execute("final", m3)
+		x.execute("size3", filter("size3", m3))
+		x.execute("size5", filter("size5", m3))
+	}
+	results := x.order
+	enumerated := x.total
+	exhaustive := !x.cut
 
 	// ---- collect, classify, minimise by lookup in the exhaustive result table ----
-	byKey := map[string]*outcome{}
+	byKey := x.byKey
 	evaluated, crashed, recoveredJobs, mergedJobs := 0, 0, 0, 0
 	statusHist := map[string]int{}
 	outcomes := map[string]bool{}
 	nontrivial := 0
 	perFmt := map[string]int{}
-	for _, a := range A {
-		perFmt[a.Name[:strings.Index(a.Name, ":")]]++
+	for _, i := range all {
+		perFmt[A[i].Name[:strings.Index(A[i].Name, ":")]]++
 	}
 	samples := ev.NewSamples(8)
 	for _, o := range results {
@@ -379,7 +441,6 @@ func main() {
 			continue
 		}
 		evaluated++
-		byKey[seqKey(o.Job.Mode, o.Job.Seq)] = o
 		if o.Crash != nil {
 			crashed++
 			nontrivial++
@@ -435,11 +496,14 @@ func main() {
 				}
 				sub := append(append([]int{}, o.Job.Seq[:d]...), o.Job.Seq[d+1:]...)
 				so := byKey[seqKey(o.Job.Mode, sub)]
+				if so == nil { // size trigger unreachable for the sub-sequence: its final-mode run is the same run
+					so = byKey[seqKey("final", sub)]
+				}
 				if so == nil {
 					continue
 				}
 				for _, sf := range so.findings() {
-					if sf.key() == f.key() {
+					if sf.key() == f.key() || (rootOf(f) != "" && rootOf(sf) == rootOf(f)) {
 						minimal = false
 					}
 				}
@@ -508,7 +572,7 @@ func main() {
 	}
 	cwg.Wait()
 	if v := nondet.Load(); v != nil {
-		ev.Nondeterminism(v.(string))
+		die(func() { ev.Nondeterminism(v.(string)) })
 	}
 
 	for _, s := range sigs {
@@ -530,7 +594,7 @@ func main() {
 				c.rep.Crash.Exit, c.rep.Crash.Kind, c.rep.Crash.Site, seqNames(A, c.rep.Job.Seq), ro.MaxBuf, modes)
 		} else {
 			ro.Status = c.rep.Res.Status
-			desc = fmt.Sprintf("%s for request %q %s in sequence [%s] statuses %v (modes %v)", c.f.Kind, c.f.Subject, c.f.Detail,
+			desc = fmt.Sprintf("%s for request %q %s %s in sequence [%s] statuses %v (modes %v)", c.f.Kind, c.f.Subject, c.f.Detail, c.f.Info,
 				seqNames(A, c.rep.Job.Seq), c.rep.Res.Status, modes)
 		}
 		for i := 0; i < max(1, instances[c.f.key()]); i++ {
@@ -551,18 +615,23 @@ func main() {
 		}
 	}
 
-	var names []string
-	for _, a := range A {
-		names = append(names, a.Name)
+	var names, mnames []string
+	for _, i := range all {
+		names = append(names, A[i].Name)
 	}
+	for _, i := range merge {
+		mnames = append(mnames, A[i].Name)
+	}
+	run.Coverage["merge_alphabet"] = mnames
 	run.Coverage["evaluations"] = evaluated
-	run.Coverage["enumerated"] = len(jobs)
-	run.Coverage["exhaustive"] = exhaustive && evaluated == len(jobs)
+	run.Coverage["enumerated"] = enumerated
+	run.Coverage["size_mode_sequences_skipped_trigger_unreachable"] = skipped
+	run.Coverage["exhaustive"] = exhaustive && evaluated == enumerated
 	run.Coverage["distinct_nontrivial"] = nontrivial
 	run.Coverage["distinct_outcomes"] = len(outcomes)
-	run.Coverage["rule"] = "every sequence of length <=2 over the whole atom alphabet (x flush mode size3 = max_buffer_size 3 so the 2nd request's rows trigger the asynchronous worker flush that merges both batches, and final = only the explicit flush), thorough adds every sequence of length <=3 over the merge alphabet (x size3,size5,final); one fresh server + worker-process slot per sequence. A case is non-trivial when a stored Parquet file holds rows of >=2 different requests (a cross-request merge reached storage) or the process died; distinct_outcomes counts distinct (status vector, per-request stored rows, files, findings) tuples"
+	run.Coverage["rule"] = "every request sequence of length <=2 over the atom alphabet is run with only the explicit flush at the end (mode final: both batches merge in that flush) and again with max_buffer_size=3 (mode size3: the 2nd request's rows trigger the asynchronous flush worker, which merges the batches of both requests) wherever that trigger is reachable, i.e. the requests accepted in the final-mode run carry >=3 rows (otherwise the two runs are the same run and it is not repeated; counted in size_mode_sequences_skipped_trigger_unreachable); thorough uses the full alphabet and adds every sequence of length <=3 over the merge alphabet x {final,size3,size5}. One fresh server in a worker-process slot per case. A case is non-trivial when a stored Parquet file holds rows of >=2 different requests (a cross-request merge reached storage) or the worker process died; distinct_outcomes counts distinct (status vector, per-request stored rows, files, findings) tuples"
 	run.Coverage["alphabet"] = names
-	run.Coverage["alphabet_size"] = len(A)
+	run.Coverage["alphabet_size"] = len(all)
 	run.Coverage["alphabet_per_format"] = perFmt
 	run.Coverage["merge_alphabet_size"] = mergeFlagged
 	run.Coverage["merge_alphabet_validated"] = mergeValidated
@@ -575,7 +644,7 @@ func main() {
 	run.Coverage["classes_replayed_twice"] = len(sigs)
 	sm := samples.List()
 	if len(sm) == 0 {
-		sm = append(sm, map[string]any{"sequence": seqNames(A, jobs[0].Seq), "mode": jobs[0].Mode})
+		sm = append(sm, map[string]any{"sequence": A[all[0]].Name, "mode": "final"})
 	}
 	run.Coverage["samples"] = sm
 	run.Assume("storage is hx.MemBackend (never fails); the explicit FlushAll+Close after each sequence stands in for the age-triggered background flush (periodicFlush -> flushAgedBuffers, same flushBufferLocked, no recover) and for shutdown")
@@ -583,7 +652,7 @@ func main() {
 	run.Assume("auth/RBAC off, no WAL, no cluster router; request atoms are the listed alphabet, bodies <= 4 MiB (+1), payload cap of the in-process server 4 MiB; the fixed 100 MB / 500 MB caps of line-protocol, TLE and import decompression are not driven to their limit")
 	run.Assume("only time-attributable rows are compared value by value; rows with server-generated or format-derived times (TLE epoch) are judged by count")
 	fmt.Printf("C04 %s: alphabet=%d sequences=%d evaluated=%d process_deaths=%d recovered_handler_panics=%d merged=%d distinct_outcomes=%d raw_findings=%d classes=%d\n",
-		run.Tier, len(A), len(jobs), evaluated, crashed, recoveredJobs, mergedJobs, len(outcomes), raw, len(sigs))
+		run.Tier, len(all), enumerated, evaluated, crashed, recoveredJobs, mergedJobs, len(outcomes), raw, len(sigs))
 	os.RemoveAll(scratch)
 	run.Finish()
 }
